@@ -28,6 +28,8 @@ def in_paths(x, pre, acc):
     elif isinstance(x, dict):
         for i, e in enumerate(x.values(), 1):
             in_paths(e, pre + (i,), acc)
+    elif hasattr(type(x), "_serialize") and hasattr(x, "x"):
+        in_paths(x.x, pre + (1,), acc)               # the value a SerializableType wrapper of the bridge holds
     elif isinstance(x, collections.ChainMap):
         acc[pre + ("maps",)] = id(x.maps)             # the ChainMap's own list of maps is a mutable container of the argument too
         for i, m in enumerate(x.maps, 1):
